@@ -5,10 +5,12 @@ import WM.Model.IdSets
 import WM.Spec.IdSet
 import WM.Spec.IdSetPool
 import WM.Model.NumLists
+import WM.Model.NumPack
 import WM.Model.HashFile
 import WM.Model.HashBytes
 import WM.Model.Sort
 import WM.Model.Compound
+import WM.Model.CompoundBytes
 import WM.Model.Base85
 namespace WM.Drv.C20
 open WM.Proto WM.IdSets
@@ -339,8 +341,55 @@ def gaRun (g : GA) : List Int → List String → GA × List String
     let (g', e) := g.append n
     gaRun g' ns ((showTC g'.tc ++ (if e then "!" else "")) :: acc)
 
-open WM.NumLists in
+open WM.NumLists WM.NumPack in
 def numlists : List SExp → Option String
+  | [.atom "gints-write", l] => l.natList? >>= fun l =>
+    some (match gWrite l with | some bs => showHex bs | none => "err")
+  | [.atom "gints-read", n, .atom hex] => do
+    let n ← n.nat?
+    let bs ← hexBytes? hex
+    some (match gRead n bs with
+      | some (xs, r) => s!"{showNatList xs} {showHex r}"
+      | none => "err")
+  | [.atom "deltas-write", .atom codec, l] => do
+    let l ← l.natList?
+    let w : Option (List Nat → Option (List Nat)) := match codec with
+      | "gints" => some gWrite | "s16" => some s16write
+      | "varints" => some (fun l => some (writeVarints l))
+      | "fixed1" => some (writeFixed 1) | "fixed2" => some (writeFixed 2) | "fixed4" => some (writeFixed 4)
+      | _ => none
+    let w ← w
+    some (match writeDeltasWith w l with | some bs => showHex bs | none => "err")
+  | [.atom "deltas-read", .atom codec, n, .atom hex] => do
+    let n ← n.nat?
+    let bs ← hexBytes? hex
+    let r : Option (Nat → List Nat → Option (List Nat × List Nat)) := match codec with
+      | "gints" => some gRead | "s16" => some s16read | "varints" => some readVarints
+      | "fixed1" => some (readFixed 1) | "fixed2" => some (readFixed 2) | "fixed4" => some (readFixed 4)
+      | _ => none
+    let r ← r
+    some (match readDeltasWith r n bs with
+      | some (xs, rest) => s!"{showNatList xs} {showHex rest}"
+      | none => "err")
+  | [.atom "s16-compress", l] => l.natList? >>= fun l =>
+    some (match s16compress l with | some (v, k) => s!"{v} {k}" | none => "err")
+  | [.atom "s16-decompress", v, n] => do
+    let v ← v.nat?
+    let n ← n.nat?
+    some (showNatList (s16decompress v n))
+  | [.atom "s16-get", .atom hex, pos, i] => do
+    let bs ← hexBytes? hex
+    let pos ← pos.nat?
+    let i ← i.nat?
+    some (showOpt toString (s16get (bs.drop pos) i))
+  | [.atom "s16-write", l] => l.natList? >>= fun l =>
+    some (match s16write l with | some bs => showHex bs | none => "err")
+  | [.atom "s16-read", n, .atom hex] => do
+    let n ← n.nat?
+    let bs ← hexBytes? hex
+    some (match s16read n bs with
+      | some (xs, r) => s!"{showNatList xs} {showHex r}"
+      | none => "err")
   | [.atom "delta-enc", l] => l.intList? >>= fun l => some (showIntList (deltaEncode l))
   | [.atom "delta-dec", l] => l.intList? >>= fun l => some (showIntList (deltaDecode l))
   | [.atom "ga", tc, al, l] => do
@@ -532,6 +581,21 @@ def misc : List SExp → Option String
     let (blob, dir, dirpos) := WM.Compound.assemble before files
     let reads := files.map fun (n, _) => showOpt showHex (WM.Compound.openFile blob dir n)
     some s!"{showList (fun (e : WM.Compound.Entry) => s!"({e.name} {e.offset} {e.length})") dir} {dirpos} ({" ".intercalate reads})"
+  | [.atom "compound-file", .atom before, .list files, .atom pickled] => do
+    let before ← hexBytes? before
+    let pickled ← hexBytes? pickled
+    let files ← files.mapM fun e => match e with
+      | .list [.atom n, .atom d] => (hexBytes? d).map fun d => (n, d)
+      | _ => none
+    some (match WM.Compound.assembleFile before files pickled with
+      | .ok file => showHex file
+      | .error _ => "err")
+  | [.atom "compound-opendir", .atom file, basepos] => do
+    let file ← hexBytes? file
+    let basepos ← basepos.nat?
+    some (match WM.Compound.openDir file basepos with
+      | .ok (o, l, rest) => s!"{o} {l} {showHex rest}"
+      | .error _ => "err")
   | [.atom "compound-writer", bs, .list ops] => do
     let bs ← bs.int?
     let w ← ops.foldlM (fun (w : WM.Compound.Writer) e => match e with
